@@ -3,6 +3,7 @@ import base64, collections, json, os, random, sys
 import jsonschema
 from vf import corpus
 from vf.checks import c03, c10
+from vf.checks import grid as grid_mod
 from vf.runner import run_check, Violation
 b64 = lambda b: base64.b64encode(b).decode(); unb = base64.b64decode
 SCHEMA = json.load(open(os.path.join(os.path.dirname(os.path.dirname(os.path.dirname(os.path.abspath(__file__)))), "schema", "codetf.schema.json")))
@@ -30,6 +31,12 @@ def plan(tier, seed):
         j = dict(j); j["id"] = "fault:" + j["id"]; j["want_before"] = True; jobs.append(j)
     for j in c03.plan("quick", seed):
         if j["id"].startswith("manifest:"): j = dict(j); j["want_before"] = True; jobs.append(j)
+    # a cross-section of the shared grid (every codemod at least once, program families, layouts): each of those reports must be well-formed too
+    gj = grid_mod.plan("quick", seed); by_cm = collections.defaultdict(list)
+    for j in gj: by_cm[j["cid"]].append(j)
+    pick = [rnd.choice(v_) for k_, v_ in sorted(by_cm.items())] + rnd.sample(gj, min(len(gj), 200 if tier == "quick" else 1500))
+    for j in pick:
+        j = dict(j); j["id"] = "grid:" + j["id"]; j["repeat"] = 1; j["want_before"] = True; j["monitors"] = {"snap": False, "pipe": False}; jobs.append(j)
     sast = [r for r in corpus.load() if r["kind"] == "sast" and r["results"] and r["input"] != r["expected"]]
     from vf.checks import grid
     for j in grid.sast_jobs("quick", seed)[: (20 if tier == "quick" else 100)]:
